@@ -554,6 +554,29 @@ def random_entry(kind, pool, rng):
         if k < 0.85:
             vals = rng.sample(pool, min(len(pool), rng.randint(1, 3)))
             return _list_tokens(kind, vals), ("in", tuple(vals))
+        if k < 0.93 and nonneg:
+            # negation of comparisons / an interval / a mixed list: not(< 2, > 7), not([1..3]), not(5, >= 9)
+            parts, toks = [], []
+            for _ in range(rng.randint(1, 2)):
+                j = rng.random()
+                x = rng.choice(nonneg)
+                if j < 0.5:
+                    op = rng.choice(["<", "<=", ">", ">="])
+                    parts.append(("cmp", op, x))
+                    toks.append(op + " " + _num_text(x))
+                elif j < 0.8:
+                    y = rng.choice(nonneg)
+                    lo, hi = min(x, y), max(x, y)
+                    lc, hc = rng.random() < 0.6, rng.random() < 0.6
+                    parts.append(("rng", lo, lc, hi, hc))
+                    toks.append("%s%s..%s%s" % ("[" if lc else "(", _num_text(lo), _num_text(hi), "]" if hc else ")"))
+                else:
+                    parts.append(("in", (x,)))
+                    toks.append(_num_text(x))
+            toks = [t + "," for t in toks[:-1]] + [toks[-1]]
+            toks[0] = "not(" + toks[0]
+            toks[-1] = toks[-1] + ")"
+            return toks, ("notany", tuple(parts))
         vals = rng.sample(pool, min(len(pool), rng.randint(1, 2)))
         toks = _list_tokens(kind, vals)
         toks[0] = "not(" + toks[0]
@@ -583,6 +606,8 @@ def entry_matches(spec, v):
         return v in spec[1]
     if k == "notin":
         return v not in spec[1]
+    if k == "notany":
+        return not any(entry_matches(p, v) for p in spec[1])
     raise ValueError(spec)
 
 
